@@ -53,6 +53,11 @@ pub fn inject_hook(core: &mut Core, ni: usize, t: u64, st: &mut InjState) {
     if rel < inj.after_ms || rel >= inj.until_ms {
         return;
     }
+    // outside the handshake family, packets are only injected once the victim's session is Running:
+    // before that an endpoint does not know its peer's magic number yet, so "foreign" is undefined
+    if !inj.synthesize && !core.nodes[ni].fin.running {
+        return;
+    }
     if !core.inject_rng.chance(inj.p) {
         return;
     }
